@@ -12,6 +12,15 @@ import vlib  # noqa: E402
 
 def main():
     kinds = ["rel", "asan"]
+    vlib.build_lib("rel")
+    print(vlib.gen_consts().strip())
+    ok, out = vlib.coq_make()
+    print(out[-3000:])
+    if not ok:
+        print("SETUP: Coq development failed to build")
+        return 1
+    for s in vlib.slices():
+        vlib.build_model(s)
     for k in kinds:
         vlib.build_lib(k)
     drivers = [os.path.basename(p)[:-2] for p in glob.glob(os.path.join(vlib.IMPL, "*.c"))]
